@@ -7,6 +7,7 @@ From PV Require Import Model.ForceField Model.Topology Model.Moves Proofs.Moves.
 From PV Require Import Model.Quatfit Model.Debump Proofs.Debump Proofs.DebumpTable.
 From PV Require Import Model.Flip Proofs.Quatfit Proofs.Flip Proofs.FlipR.
 From PV Require Import Generated.Topology Generated.MovesTable Generated.FlipTable.
+From PV Require Proofs.NoopStages Generated.Stages.
 Import ListNotations.
 
 (* For ALL bond graphs, ALL moved sets M meeting the (boolean, checkable)
@@ -272,6 +273,14 @@ Example C04_flip_nonvacuous :
     = map (fun a => (fa_name a, fa_pos a)) fx_atoms.
 Proof. exact flip_nonvacuous. Qed.
 
+(* generated obligation on the stage table of main.py (gen/stages.py): both debumping passes are controlled
+   by args.debump (and otherwise only by assign_only / clean), the set-up of the full optimisation (where
+   Flip objects are created) by args.opt, and debump / opt are written only by transform_arguments from
+   assign_only and clean.  PARTIAL: dependence of the guards, not their polarity (observed at run time) *)
+Theorem C04_noop_stage_table :
+  PV.Proofs.NoopStages.noop_obligation PV.Generated.Stages.stages = true.
+Proof. vm_compute. reflexivity. Qed.
+
 Print Assumptions C04_bond_preserved.
 Print Assumptions C04_angle_preserved.
 Print Assumptions C04_frame.
@@ -293,3 +302,4 @@ Print Assumptions C04_flip_rigid.
 Print Assumptions C04_flip_involution.
 Print Assumptions C04_flip_table.
 Print Assumptions C04_flip_nonvacuous.
+Print Assumptions C04_noop_stage_table.
